@@ -932,6 +932,6 @@ func propC14Rendered(col *ev.Collector, honourKnown bool) func(c c14RenderedCase
 
 func TestC14_rendered(t *testing.T) {
 	col := ev.Get("C14")
-	checkRapid(t, col, ev.Scale(ev.IntEnv("VERIF_C14_QUICK", 8000), 8000), genC14Rendered(col), propC14Rendered(col, true), propC14Rendered(col, false),
+	checkRapid(t, col, ev.Scale(ev.IntEnv("VERIF_C14_QUICK", 8000), 50000), genC14Rendered(col), propC14Rendered(col, true), propC14Rendered(col, false),
 		func(c c14RenderedCase) bool { return c.Format != "" })
 }
